@@ -380,6 +380,8 @@ def check_main(
         "partial_theorems": aud["partial"],
         "axioms_used": aud["axioms"],
         "evaluations": res.evaluations,
+        "programs": res.evaluations,
+        "disagreements_checked": res.traces_validated + len(res.disagreements),
         "traces_validated_against_impl": res.traces_validated,
         "distinct_nontrivial": len(res.nontrivial),
         "rule": res.rule,
